@@ -39,7 +39,7 @@ Definition xroot_eqb (a b : xroot) : bool := if xroot_dec a b then true else fal
    any order, schema maps in any order); [second]: the export of the re-imported set, keyed by
    (package incl. sub-package, name), any order *)
 Inductive c15case :=
-| C15Case (d : desc) (wanted : list str)
+| C15Case (d : desc) (svcs : list svcd) (wanted : list str)
           (cls_export : N) (first : xapi)
           (cls_import : N) (second : list (ref * xroot)).
 
@@ -86,22 +86,33 @@ Definition orders {A} (l : list A) : list (list A) :=
   if Nat.leb (length l) 4 then perms l
   else let rs := rotations_from (length l) l in rs ++ map (@rev A) rs.
 
-Definition check_export (D : desc) (wanted : list str) (cls_export : N) (first : xapi) : bool :=
+Definition check_export (D : desc) (svcs : list svcd) (wanted : list str) (cls_export : N) (first : xapi) : bool :=
   let fs := selected D wanted in
+  (* addStructure runs first; an error of it is the outcome, whatever the order of the services *)
+  match add_structure wanted (api_init wanted) svcs with
+  | RErr _ => N.eqb cls_export 1
+  | ROk api0 =>
   (* vm_compute is call-by-value: branch explicitly so that the orders are only tried when needed *)
   if match reflect D fs with
      | Ok st =>
          (* what the round-trip theorem assumes of a reflected set, checked on every case *)
          keys_distinct st && set_importable st && set_closed st &&
-         match api_of_set wanted st with
+         match api_of_set_from api0 st with
          | Ok api => N.eqb cls_export 0 && same_api api first
          | _ => false
          end
      | _ => false
      end
   then true
-  else if N.eqb cls_export 0 then false
-  else existsb (fun p => N.eqb cls_export (cls (api_from_image D wanted p))) (orders fs).
+  else
+    (* with a split-name collision (two descriptors, one schema name) not only which failure is met
+       first but also whether the build succeeds, and with which schema under the shared name, depends
+       on the order: the observed API must be the API of some order *)
+    existsb (fun p => match api_from_image D svcs wanted p with
+                      | Ok api => N.eqb cls_export 0 && same_api api first
+                      | o => N.eqb cls_export (cls o)
+                      end) (orders fs)
+  end.
 
 Definition exported (st : sset) : list (ref * xroot) :=
   match export_set st with Ok l => l | _ => [] end.
@@ -114,11 +125,11 @@ Definition check_import (cls_export : N) (first : xapi) (cls_import : N) (second
        end.
 
 Definition c15_check (c : c15case) : bool :=
-  match c with C15Case D wanted ce first ci second =>
-    check_export D wanted ce first && check_import ce first ci second
+  match c with C15Case D svcs wanted ce first ci second =>
+    check_export D svcs wanted ce first && check_import ce first ci second
   end.
 
 Definition c15_failing (c : c15case) : list N :=
-  match c with C15Case D wanted ce first ci second =>
-    (if check_export D wanted ce first then [] else [0%N]) ++ (if check_import ce first ci second then [] else [1%N])
+  match c with C15Case D svcs wanted ce first ci second =>
+    (if check_export D svcs wanted ce first then [] else [0%N]) ++ (if check_import ce first ci second then [] else [1%N])
   end.
